@@ -5,7 +5,7 @@ import gen_regex
 from props.c01 import relabel_stream
 
 PROP = "C11"
-MODULES = ["NeatviVerif.Props.C11"]
+MODULES = ["NeatviVerif.Props.C11", "NeatviVerif.Props.C11b"]
 RX_SRCS = ["probe_regex.c", REPO + "/rset.c", REPO + "/rstr.c", REPO + "/sbuf.c", REPO + "/uc.c"]
 MODE = "rx11"
 
